@@ -341,6 +341,7 @@ pub fn gen_micro(rng: &mut Rng, idx: u64) -> (Case, MicroInfo) {
     let mut pkt = Vec::new();
     let mut helpers = Vec::new();
     let mut template = "alu";
+    let mut fixed_overlap: Option<(usize, usize)> = None;
     match info.shape {
         Shape::AluImm | Shape::AluReg | Shape::Unary | Shape::Endian => {
             if info.shape == Shape::Endian {
@@ -428,6 +429,22 @@ pub fn gen_micro(rng: &mut Rng, idx: u64) -> (Case, MicroInfo) {
             }
             b.i(MOV64_REG, 0, rr, 0, 0);
             b.exit();
+        }
+        Shape::LdReg if opc == LDXW && rng.chance(1, 4) => {
+            // fixed-metadata VM whose two 8-byte slots OVERLAP (offsets 4 apart, like the 32-bit
+            // __sk_buff fields): reading both as 32-bit values and subtracting gives the packet
+            // length, provided every engine fills the slots in the same order as the interpreter
+            template = "fixed-overlap";
+            kind = Kind::Fixed;
+            pkt = pkt_for(rng);
+            let a = *rng.pick(&[0i16, 8, 20, 0x4c, 100]);
+            b.i(LDXW, 2, 1, a, 0);
+            b.i(LDXW, 0, 1, a + 4, 0);
+            b.i(0x1c, 0, 2, 0, 0); // sub32 r0, r2
+            b.exit();
+            dst = 0;
+            src = 1;
+            fixed_overlap = Some((a as usize, a as usize + 4));
         }
         Shape::LdReg | Shape::StImm | Shape::StReg | Shape::Xadd => {
             let w = info.width as i64;
@@ -547,7 +564,8 @@ pub fn gen_micro(rng: &mut Rng, idx: u64) -> (Case, MicroInfo) {
                 if src == 10 {
                     src = 7;
                 }
-                let k = rng.range(0, t);
+                // the index register may be negative, compensated by the immediate (backward walk)
+                let k = if rng.chance(1, 3) { *rng.pick(&[t + 1, t + 4, t + 1000, 0x7fff_ffff]) } else { rng.range(0, t) };
                 b.lddw(src, (t - k) as u64);
                 b.i(opc, if rng.chance(1, 8) { dst } else { 0 }, src, 0, k as i32);
             }
@@ -601,6 +619,9 @@ pub fn gen_micro(rng: &mut Rng, idx: u64) -> (Case, MicroInfo) {
     }
     if kind == Kind::Fixed {
         c.offs = *rng.pick(&[(0usize, 8usize), (8, 0), (0x40, 0x50), (16, 32)]);
+    }
+    if let Some(o) = fixed_overlap {
+        c.offs = o;
     }
     (c, MicroInfo { opc, dst, src, cls_a, cls_b, template })
 }
@@ -1211,11 +1232,20 @@ pub fn gen_long(rng: &mut Rng, n: usize, variant: u64) -> Case {
             // local calls and helper-free returns located beyond pc 65535 (return address / call
             // target arithmetic at high pcs), forward and backward
             class = "long/call-high";
-            // callee A near the start (backward call target)
-            v.push(Insn::new(JA, 0, 0, 3, 0));
+            // callee A near the start (backward call target); A itself calls C (nested call in a
+            // far-away function) and both report caller_r10 - own_r10
+            v.push(Insn::new(JA, 0, 0, 10, 0));
             let callee_a = v.len();
+            v.push(Insn::new(SUB64_REG, 2, 10, 0, 0)); // r2 = caller r10 - r10
+            v.push(Insn::new(ADD64_REG, 0, 2, 0, 0));
+            v.push(Insn::new(MOV64_REG, 2, 10, 0, 0));
+            v.push(Insn::new(CALL, 0, 1, 0, 2)); // -> C
             v.push(Insn::new(ADD64_IMM, 0, 0, 0, 1000));
-            v.push(Insn::new(MOV64_REG, 0, 0, 0, 0));
+            v.push(Insn::new(EXIT, 0, 0, 0, 0));
+            // C
+            v.push(Insn::new(SUB64_REG, 2, 10, 0, 0));
+            v.push(Insn::new(MUL64_IMM, 2, 0, 0, 65537));
+            v.push(Insn::new(ADD64_REG, 0, 2, 0, 0));
             v.push(Insn::new(EXIT, 0, 0, 0, 0));
             v.push(Insn::new(MOV64_IMM, 0, 0, 0, 1));
             v.push(Insn::new(LDDW, 6, 0, 0, 0x1234));
@@ -1225,7 +1255,8 @@ pub fn gen_long(rng: &mut Rng, n: usize, variant: u64) -> Case {
             }
             // backward call to A from a high pc
             let at = v.len();
-            v.push(Insn::new(CALL, 0, 1, 0, (callee_a as i64 - (at as i64 + 1)) as i32));
+            v.push(Insn::new(MOV64_REG, 2, 10, 0, 0));
+            v.push(Insn::new(CALL, 0, 1, 0, (callee_a as i64 - (at as i64 + 2)) as i32));
             v.push(Insn::new(ADD64_IMM, 0, 0, 0, 3));
             // forward call to B (placed after the final exit)
             let at2 = v.len();
@@ -1330,7 +1361,11 @@ pub fn gen_long(rng: &mut Rng, n: usize, variant: u64) -> Case {
             v.push(Insn::new(EXIT, 0, 0, 0, 0));
         }
     }
-    Case::new(Kind::NoData, encode_prog(&v), class)
+    let mut c = Case::new(Kind::NoData, encode_prog(&v), class);
+    if class == "long/call-high" && rng.chance(2, 3) {
+        c.calc = if rng.chance(1, 2) { CalcSpec::Table(rng.below(16) as u16) } else { CalcSpec::Const(*rng.pick(&[16u16, 48, 96])) };
+    }
+    c
 }
 
 // ---------------------------------------------------------------------------------------------
